@@ -26,7 +26,7 @@ static void save(Shared& s) {
   s.first = pl->blocks._nodes[0]; s.last = pl->blocks._nodes[1]; s.cursor = pl->cursor; s.block_count = pl->block_count; s.empty_block_count = pl->empty_block_count;
   s.area_size[0] = pl->total_area_size[0]; s.area_size[1] = pl->total_area_size[1]; s.area_used[0] = pl->total_area_used[0]; s.area_used[1] = pl->total_area_used[1]; s.overhead = pl->total_overhead_bytes;
   s.flags = b->_flags; s.area_used_b = b->_area_used; s.lua = b->_largest_unused_area; s.ss = b->_search_start; s.se = b->_search_end;
-  s.tl = b->_tree_left; s.tr = b->_tree_right; s.lp = b->_list_nodes[0]; s.ln = b->_list_nodes[1]; s.U = b->_used_bit_vector[0]; s.S = b->_stop_bit_vector[0];
+  s.tl = b->_tree_nodes[0]; s.tr = b->_tree_nodes[1]; s.lp = b->_list_nodes[0]; s.ln = b->_list_nodes[1]; s.U = b->_used_bit_vector[0]; s.S = b->_stop_bit_vector[0];
 }
 static void install(const Shared& s) {
   JitAllocatorPrivateImpl* im = impl(); JitAllocatorPool* pl = pool(0); JitAllocatorBlock* b = the_block;
@@ -34,7 +34,7 @@ static void install(const Shared& s) {
   pl->blocks._nodes[0] = s.first; pl->blocks._nodes[1] = s.last; pl->cursor = s.cursor; pl->block_count = s.block_count; pl->empty_block_count = s.empty_block_count;
   pl->total_area_size[0] = s.area_size[0]; pl->total_area_size[1] = s.area_size[1]; pl->total_area_used[0] = s.area_used[0]; pl->total_area_used[1] = s.area_used[1]; pl->total_overhead_bytes = s.overhead;
   b->_flags = s.flags; b->_area_used = s.area_used_b; b->_largest_unused_area = s.lua; b->_search_start = s.ss; b->_search_end = s.se;
-  b->_tree_left = s.tl; b->_tree_right = s.tr; b->_list_nodes[0] = s.lp; b->_list_nodes[1] = s.ln; b->_used_bit_vector[0] = s.U; b->_stop_bit_vector[0] = s.S;
+  b->_tree_nodes[0] = s.tl; b->_tree_nodes[1] = s.tr; b->_list_nodes[0] = s.lp; b->_list_nodes[1] = s.ln; b->_used_bit_vector[0] = s.U; b->_stop_bit_vector[0] = s.S;
 }
 static void scramble() {
   Shared g;
